@@ -67,13 +67,20 @@ def plant(host, rnd, fault, where=None, decorate=True):
     return rec
 
 
-def write_host(host, root):
-    """Write all files under root; returns the list of linked file paths (relative to root)."""
+def write_host(host, root, final_newline=True):
+    """Write all files under root; returns the list of linked file paths (relative to root).
+    final_newline: True/False, or a set of file names that are written WITHOUT a newline after their last line."""
     os.makedirs(root, exist_ok=True)
     for name, lines in host["texts"].items():
+        nl = final_newline if isinstance(final_newline, bool) else (name not in final_newline)
         with open(os.path.join(root, name), "w", encoding="utf-8") as f:
-            f.write("\n".join(lines) + "\n")
+            f.write("\n".join(lines) + ("\n" if nl else ""))
     return list(host["linked"])
+
+
+def append_last(host, lines, where):
+    """Append statements at the very end of a file (after a re-aligning .even), e.g. a warning on the file's last line."""
+    host["texts"][where].extend(["\t.even"] + list(lines))
 
 
 def expected_positions(rec):
